@@ -6,7 +6,9 @@ spec = {
   'chooser': {'kind': 'random'|'pct'|'first'|'replay', 'seed': n, 'choices': [...]},
   's3_fault': {'idx': request index, 'when': 'before'|'after'} | None,
   'shared_extra_args': {..} one caller-owned dict handed to EVERY transfer | transfers[i]['extra_args']: {..},
-  'get_fault': {'range_idx': i, 'attempts': n, 'after': k bytes, 'exc': 'timeout'|'fatal'|'oserror'} | None,
+  'get_fault': {'range_idx': i, 'attempts': n, 'after': k bytes, 'exc': 'timeout'|'fatal'|'oserror',
+                'stall_range_idx': j (that range's body delivers nothing until every other thread is stuck)} | None,
+  'track_get': bool (count the bytes handed out by GetObject bodies that are still referenced; C11),
   'fs_fault': {'op': 'open'|'write'|'close'|'rename', 'nth': i} | None,
   'read_fault': {'nth': i} | None,                 (source stream read raises)
   'cancel': {'how': 'future'|'shutdown'|'exit_exc'|'exit_kbi'|'result_kbi'|'controller', 'at': step, 'msg': str} | None,
@@ -122,9 +124,21 @@ def run(spec, keep_tmp=False, sample=None):
                         return mkexc(f, f's3:{rec["idx"]}:{when}')
                 return None
             client.fault = fault
+        if spec.get('track_get'):
+            client.track_get = [0]
         if getf:
+            stall = getf.get('stall_range_idx')
+
             def get_script(kw, att):
                 seen = get_script.ranges.setdefault(kw.get('Range'), len(get_script.ranges))
+                if stall is not None and seen == stall:
+                    # the slowest part: its body delivers nothing until no other thread can run
+                    def on_read(state=[False]):
+                        if not state[0]:
+                            state[0] = True
+                            me = env.sched.me()
+                            env.sched.block_until(lambda: env.sched.others_idle(me), 'slow part body')
+                    return {'read_sizes': getf.get('read_sizes'), 'on_read': on_read}
                 if seen == getf['range_idx'] and att < getf['attempts']:
                     exc = socket.timeout('injected') if getf['exc'] == 'timeout' else \
                         PermissionError('injected (not a retryable stream error)') if getf['exc'] == 'oserror' else \
@@ -140,6 +154,7 @@ def run(spec, keep_tmp=False, sample=None):
         run_.sub_names, run_.raising_queued, run_.provided_size = {}, {}, {}
         run_.spec_preexisting, run_.listing_at_result = {}, {}
         run_.stream_bytes_read = [0]
+        run_.spec_transfers = transfers
         ex = env.execs
         cfg = getattr(run_, 'requested', None) or env.config     # the limits the user asked for
         if len(ex) == 3:
